@@ -427,6 +427,7 @@ func checkC09(c *km.Ctx) {
 	}
 
 	// ---------------- R-C09-6
+	checkPublishedPEMPlain(c, "R-C09-6")
 	pub := c.MustFunc("R-C09-6", "cmd/keymasterd", "(*RuntimeState).signerPublicKeyToKeymasterKeys")
 	if loader != nil && pub != nil {
 		for _, cs := range c.G.Callers[loader] {
@@ -762,4 +763,62 @@ func foundFlagOK(c *km.Ctx, flag *ssa.Phi, fpCall *ssa.Call, signerFP ssa.Value)
 	}
 	walk(flag)
 	return ok && nTrue > 0
+}
+
+// checkPublishedPEMPlain: the certificates the daemon hands out in PEM form are plain blocks. A block with headers
+// is skipped by the certificate loaders (crypto/x509's AppendCertsFromPEM, OpenSSL): a published CA bundle made of
+// such blocks contains, for its consumers, no CA at all.
+func checkPublishedPEMPlain(c *km.Ctx, rule string) {
+	n := 0
+	for _, fn := range c.P.AllFuncs {
+		if !c.InModule(fn) {
+			continue
+		}
+		for _, ci := range km.CallsIn(fn) {
+			name := km.CalleeFull(ci.Common())
+			idx := -1
+			switch name {
+			case "encoding/pem.Encode":
+				idx = 1
+			case "encoding/pem.EncodeToMemory":
+				idx = 0
+			}
+			if idx < 0 || idx >= len(ci.Common().Args) {
+				continue
+			}
+			blk, ok := km.Unwrap(ci.Common().Args[idx]).(*ssa.Alloc)
+			if !ok {
+				continue // a block built elsewhere (the key writers of the configuration generator)
+			}
+			typ, hdr := "", ""
+			for _, ref := range *blk.Referrers() {
+				fa, ok := ref.(*ssa.FieldAddr)
+				if !ok {
+					continue
+				}
+				for _, r2 := range *fa.Referrers() {
+					st, ok := r2.(*ssa.Store)
+					if !ok || st.Addr != ssa.Value(fa) {
+						continue
+					}
+					switch fieldNameOf(fa) {
+					case "Type":
+						typ, _ = evalString(c, st.Val, 0)
+					case "Headers":
+						if !km.IsNilConst(st.Val) {
+							hdr = posOf(c, st)
+						}
+					}
+				}
+			}
+			if typ != "CERTIFICATE" {
+				continue
+			}
+			n++
+			c.R.Add(rule, km.FuncName(fn), "certificate PEM block", posOf(c, ci), "Type CERTIFICATE and no headers (loaders skip blocks that carry headers)", "headers set at "+hdr, hdr == "")
+		}
+	}
+	if n == 0 {
+		c.R.AnchorLost(rule, "CERTIFICATE blocks encoded by the module")
+	}
 }
